@@ -121,6 +121,10 @@ func (f *Replace) Call(s *slip.Scope, args slip.List, depth int) (result slip.Ob
 	}
 	result = args[0]
 	seq2 := seqToList(s, args[1], "sequence-2", start2, end2, depth)
+	if sameSequence(args[0], args[1]) {
+		// The source region is copied first so that an overlapping target region does not change it.
+		seq2 = append(slip.List{}, seq2...)
+	}
 	switch seq1 := args[0].(type) {
 	case nil:
 	case slip.List:
@@ -174,6 +178,19 @@ func (f *Replace) Call(s *slip.Scope, args slip.List, depth int) (result slip.Ob
 		slip.TypePanic(s, depth, "sequence-1", seq1, "sequence")
 	}
 	return
+}
+
+// sameSequence returns true if the two sequences are the same object.
+func sameSequence(a, b slip.Object) bool {
+	switch ta := a.(type) {
+	case slip.List:
+		tb, ok := b.(slip.List)
+		return ok && 0 < len(ta) && 0 < len(tb) && &ta[0] == &tb[0]
+	case *slip.Vector:
+		tb, ok := b.(*slip.Vector)
+		return ok && ta == tb
+	}
+	return false
 }
 
 func (f *Replace) checkStartEnd(s *slip.Scope, start, end, size, depth int) int {
